@@ -391,7 +391,7 @@ func propC16ArbitraryBytes(t *rapid.T) {
 	}
 	raw := sb.String()
 	res := c16Serve(key, chunkBytes(t, raw))
-	hasKeyHeader := regexp.MustCompile(`(?i)x-api-key:[ \t]*secret[ \t]*(\r?\n|\r?$)`).MatchString(raw)
+	hasKeyHeader := c16KeyGiven(raw, "secret")
 	vstat.Case("C16/bytes", key+"|"+raw, key != "" && len(raw) > 10, fmt.Sprintf("keyConfigured=%v", key != ""))
 	if res.hung {
 		t.Fatalf("key %q bytes %q: no answer within 20 s", key, raw)
@@ -448,4 +448,17 @@ func TestVerifC16_ListenAddress(t *testing.T) {
 			t.Fatalf("listen address %q: IsLocal=%v", s, addr.IsLocal())
 		}
 	})
+}
+
+// c16KeyGiven tells whether the bytes carry the key: a header line (lines end with CR LF; the last
+// one may end with the request) named x-api-key whose value is the key, blanks around it ignored.
+func c16KeyGiven(raw string, key string) bool {
+	lines := strings.Split(raw, "\r\n")
+	for _, l := range lines[1:] {
+		name, value, ok := strings.Cut(l, ":")
+		if ok && strings.EqualFold(name, "x-api-key") && strings.TrimSpace(value) == key {
+			return true
+		}
+	}
+	return false
 }
